@@ -1,7 +1,143 @@
 import Driver.Proto
+import GbVerif.Model.Lcd
+import GbVerif.Spec.Lcd
+/-!
+C14 correspondence: replays the `c14.*` lines (see `harness/src/s_c14.rs`) on the closed-form
+schedule of `Spec/Lcd.lean` (spec verdict first) and on the model `Model/Lcd.lean`.
+-/
 namespace Driver
+open GbVerif
 
-/-- C14 correspondence (stub) -/
-def checkC14 (l : Line) : Verdict := .bad s!"stream {l.stream} not implemented"
+namespace C14
+
+/-- `N` or `NxM` items, comma separated → the expanded batch list (clocks) -/
+def parseBatches (s : String) : Array Nat := Id.run do
+  let mut out : Array Nat := #[]
+  if s = "" then return out
+  for it in s.splitOn "," do
+    match it.splitOn "x" with
+    | [n] => out := out.push (parseNat n)
+    | [n, m] =>
+      let nn := parseNat n
+      for _ in [0:parseNat m] do out := out.push nn
+    | _ => out := out.push 1   -- malformed: not a multiple of 4, reported as bad below
+  return out
+
+def b2n (b : Bool) : Nat := if b then 1 else 0
+
+/-- what the spec demands of one batch of `n` ticks starting at tick `k`:
+(LY after, STAT bits 0..2 after, VBlank requested, STAT requested) -/
+def specBatch (e : LcdSpec.Enables) (lyc k n : Nat) : Nat × Nat × Bool × Bool :=
+  ((LcdSpec.sched (4 * (k + n))).line, LcdSpec.statLow lyc (4 * (k + n)),
+   LcdSpec.anyTick LcdSpec.vblankEv k n, LcdSpec.anyTick (LcdSpec.statEv e lyc) k n)
+
+structure Obs where
+  ly : Nat
+  st : Nat
+  fl : Nat
+
+def obsAt (o : Array Nat) (i : Nat) : Obs := ⟨o[3*i]!, o[3*i+1]!, o[3*i+2]!⟩
+
+/-- spec verdict for one observation after the batch `[k, k+n)` (ticks); `none` = agrees -/
+def specCheck (e : LcdSpec.Enables) (lyc k n : Nat) (ob : Obs) (tag : String) : Option String :=
+  let (ly, low, vb, st) := specBatch e lyc k n
+  if ob.ly != ly then some s!"{tag}: LY impl={ob.ly} spec={ly} at clock {4 * (k + n)}"
+  else if ob.st % 8 != low then some s!"{tag}: STAT bits 0..2 impl={ob.st % 8} spec={low} at clock {4 * (k + n)}"
+  else if ob.fl.testBit 0 != vb then
+    some s!"{tag}: VBlank request impl={b2n (ob.fl.testBit 0)} spec={b2n vb} for clocks ({4 * k},{4 * (k + n)}]"
+  else if ob.fl.testBit 1 != st then
+    some s!"{tag}: STAT request impl={b2n (ob.fl.testBit 1)} spec={b2n st} for clocks ({4 * k},{4 * (k + n)}]"
+  else if ob.fl / 4 != 0 then some s!"{tag}: unexpected flag bits impl={ob.fl}"
+  else none
+
+def modelStart (stat lyc : Nat) : Lcd.State × Nat × Nat :=
+  let (s1, w1) := Lcd.setStat stat Lcd.powerOn
+  let (s2, w2) := Lcd.setLyc lyc s1
+  (s2, w1, w2)
+
+/-- streams `c14.step`, `c14.run`, `c14.io`: one observation per batch -/
+def checkSeq (l : Line) : Verdict := Id.run do
+  let stat := l.inN "stat"; let lyc := l.inN "lyc"
+  let bs := parseBatches (l.inS "b")
+  let o := parseBytes (l.outS "o")
+  let wv := parseBytes (l.outS "w")
+  if stat ≥ 256 || lyc ≥ 256 then return .bad "stat/lyc not a byte"
+  if o.size != 3 * bs.size || wv.size != 2 then return .bad s!"expected {bs.size} observations, got {o.size}/3"
+  if bs.any (· % 4 != 0) then return .bad "batch not a multiple of 4 clocks"
+  -- spec: closed-form schedule and events
+  let e := LcdSpec.Enables.ofByte stat
+  let mut k := 0
+  let mut nt := false
+  for i in [0:bs.size] do
+    let n := bs[i]! / 4
+    let ob := obsAt o i
+    match specCheck e lyc k n ob s!"batch {i}" with
+    | some m => return .specDiff m
+    | none => pure ()
+    if ob.fl != 0 then nt := true
+    k := k + n
+  -- model
+  let (s0, w1, w2) := modelStart stat lyc
+  if w1 != wv[0]! then return .modelDiff s!"flags of STAT write model={w1} impl={wv[0]!}"
+  if w2 != wv[1]! then return .modelDiff s!"flags of LYC write model={w2} impl={wv[1]!}"
+  let mut s := s0
+  for i in [0:bs.size] do
+    let ob := obsAt o i
+    match Lcd.runClocks bs[i]! s with
+    | none => return .bad "batch not a multiple of 4 clocks"
+    | some (s', fl) =>
+      s := s'
+      if Lcd.getLy s != ob.ly then return .modelDiff s!"batch {i}: LY model={Lcd.getLy s} impl={ob.ly}"
+      if Lcd.getStat s != ob.st then return .modelDiff s!"batch {i}: STAT model={Lcd.getStat s} impl={ob.st}"
+      if fl != ob.fl then return .modelDiff s!"batch {i}: flags model={fl} impl={ob.fl}"
+  return .ok nt
+
+def runAll (bs : Array Nat) (s : Lcd.State) : Option (Lcd.State × Nat) := Id.run do
+  let mut s := s
+  let mut acc := 0
+  for c in bs do
+    match Lcd.runClocks c s with
+    | none => return none
+    | some (s', fl) => s := s'; acc := acc ||| fl
+  return some (s, acc)
+
+/-- stream `c14.part`: the same elapsed time under two partitions, final observation + OR of flags -/
+def checkPart (l : Line) : Verdict := Id.run do
+  let stat := l.inN "stat"; let lyc := l.inN "lyc"
+  let as := parseBatches (l.inS "a"); let bs := parseBatches (l.inS "b")
+  let oa := parseBytes (l.outS "oa"); let ob := parseBytes (l.outS "ob")
+  if stat ≥ 256 || lyc ≥ 256 then return .bad "stat/lyc not a byte"
+  if oa.size != 3 || ob.size != 3 then return .bad "expected one observation per partition"
+  if as.any (· % 4 != 0) || bs.any (· % 4 != 0) then return .bad "batch not a multiple of 4 clocks"
+  let tot := as.foldl (· + ·) 0
+  if bs.foldl (· + ·) 0 != tot then return .bad "partitions of different totals"
+  let e := LcdSpec.Enables.ofByte stat
+  let a := obsAt oa 0; let b := obsAt ob 0
+  -- spec: both partitions must show what one call of the whole time shows …
+  match specCheck e lyc 0 (tot / 4) a "partition a" with
+  | some m => return .specDiff m
+  | none => pure ()
+  match specCheck e lyc 0 (tot / 4) b "partition b" with
+  | some m => return .specDiff m
+  | none => pure ()
+  -- … hence the same (independent of the spec's schedule)
+  if oa != ob then return .specDiff s!"batching changes the outcome: a={oa} b={ob}"
+  let (s0, _, _) := modelStart stat lyc
+  match runAll as s0, runAll bs s0 with
+  | some (sa, fa), some (sb, fb) =>
+    if Lcd.getLy sa != a.ly || Lcd.getStat sa != a.st || fa != a.fl then
+      return .modelDiff s!"partition a: model LY={Lcd.getLy sa} STAT={Lcd.getStat sa} flags={fa} impl={oa}"
+    if Lcd.getLy sb != b.ly || Lcd.getStat sb != b.st || fb != b.fl then
+      return .modelDiff s!"partition b: model LY={Lcd.getLy sb} STAT={Lcd.getStat sb} flags={fb} impl={ob}"
+    return .ok (a.fl != 0)
+  | _, _ => return .bad "batch not a multiple of 4 clocks"
+
+end C14
+
+/-- C14 correspondence -/
+def checkC14 (l : Line) : Verdict :=
+  if l.stream == "c14.part" then C14.checkPart l
+  else if l.stream == "c14.step" || l.stream == "c14.run" || l.stream == "c14.io" then C14.checkSeq l
+  else .bad s!"unknown stream {l.stream}"
 
 end Driver
